@@ -29,6 +29,8 @@ type specEnv struct {
 	bound    map[string]Term
 	callSite bool
 	loopHead *ssa.BasicBlock
+	statics  map[string]types.Type // static (instantiated) parameter types at a call site, by parameter name
+	prove    bool                  // the clause is a goal of the function under verification (existsw uses its witness)
 }
 
 type specError struct{ msg string }
@@ -87,7 +89,36 @@ func (x *Exec) exitEnv(st *State, fr *Frame, c *Contract) *specEnv {
 
 func (x *Exec) checkEnsures(st *State, fr *Frame, res Val) {
 	c := x.curContract
+	for _, rs := range c.ReturnSets {
+		func() {
+			defer func() {
+				if r := recover(); r != nil {
+					if _, isSpec := r.(specError); !isSpec {
+						panic(r)
+					}
+				}
+			}()
+			gs, isGhost := x.ghostSort(rs.Ghost)
+			if !isGhost {
+				x.specFail(rs.Cl, "on-return set: %s is not a ghost", rs.Ghost)
+			}
+			e0 := x.exitEnv(st, fr, c)
+			var hint types.Type
+			if gs == sInt {
+				hint = mathInt
+			}
+			v := x.evalTerm(e0, rs.Cl.Expr, hint, rs.Cl)
+			if isBV(gs) && isBV(v.Sort) && v.Sort != gs {
+				v = x.widen64(st, v)
+			}
+			if v.Sort != gs {
+				x.specFail(rs.Cl, "on-return set %s: sort %s does not match %s", rs.Ghost, v.Sort, gs)
+			}
+			st.ghost[rs.Ghost] = st.def("ghost_"+rs.Ghost, v)
+		}()
+	}
 	env := x.exitEnv(st, fr, c)
+	env.prove = true
 	sig := fr.fn.Signature
 	rn := x.resultNames(c, sig)
 	switch sig.Results().Len() {
@@ -897,6 +928,20 @@ func (x *Exec) evalCall(env *specEnv, n *ast.CallExpr, hint types.Type, cl *Clau
 		sub := *env
 		sub.inOld = true
 		return x.eval(&sub, n.Args[0], hint, cl)
+	case "oldat":
+		// oldat(s, i): element i (evaluated now) of the slice s as it was at entry (header and contents)
+		need(2)
+		if env.old == nil {
+			x.specFail(cl, "oldat() not available in %s", env.where)
+		}
+		idx := x.widen64(st, x.evalTerm(env, n.Args[1], types.Typ[types.Int], cl))
+		sub := *env
+		sub.inOld = true
+		base, ok := x.eval(&sub, n.Args[0], nil, cl).(*SliceV)
+		if !ok {
+			x.specFail(cl, "oldat: %s is not a slice", exprStr(n.Args[0]))
+		}
+		return st.loadElem(env.old, base.Arr, app(sBV(64), nil, "bvadd", base.Off, idx), base.Elem)
 	case "implies":
 		need(2)
 		return tImplies(x.evalBool(env, n.Args[0], cl), x.evalBool(env, n.Args[1], cl))
@@ -961,6 +1006,33 @@ func (x *Exec) evalCall(env *specEnv, n *ast.CallExpr, hint types.Type, cl *Clau
 		st.x.noDef = save
 		rng := tAnd(app(sBool, nil, "bvsle", lo, bv), app(sBool, nil, "bvslt", bv, hi))
 		return Term{S: "(forall ((" + bv.S + " (_ BitVec 64))) (! " + tImplies(rng, body).S + " :pattern (" + pat.S + ")))", Sort: sBool}
+	case "existsw":
+		// existsw(k, lo, hi, w, body): exists k in [lo, hi) with body. Where the clause is a goal of the function under
+		// verification the witness w (which may use now(local)) is substituted - the solver does not have to guess it;
+		// everywhere else (callers assuming the contract) it reads as the plain existential and w is not evaluated.
+		need(5)
+		id, ok := n.Args[0].(*ast.Ident)
+		if !ok {
+			x.specFail(cl, "existsw: first argument must be an identifier")
+		}
+		if !env.prove {
+			plain := &ast.CallExpr{Fun: &ast.Ident{Name: "exists"}, Args: []ast.Expr{n.Args[0], n.Args[1], n.Args[2], n.Args[4]}}
+			return x.evalCall(env, plain, hint, cl)
+		}
+		lo := x.widen64(st, arg(1, types.Typ[types.Int]))
+		hi := x.widen64(st, arg(2, types.Typ[types.Int]))
+		wenv := *env
+		wenv.inOld = false // the witness is a value of the final state (a ghost or a local), also inside old(...)
+		w := x.widen64(st, x.evalTerm(&wenv, n.Args[3], types.Typ[types.Int], cl))
+		w.Typ = types.Typ[types.Int]
+		sub := *env
+		sub.bound = map[string]Term{}
+		for k, v := range env.bound {
+			sub.bound[k] = v
+		}
+		sub.bound[id.Name] = w
+		body := x.evalBool(&sub, n.Args[4], cl)
+		return tAnd(app(sBool, nil, "bvsle", lo, w), app(sBool, nil, "bvslt", w, hi), body)
 	case "forall", "exists":
 		// forall(i, lo, hi, body): lo <= i < hi as signed 64-bit ints; forallu for unsigned
 		need(4)
@@ -1014,6 +1086,33 @@ func (x *Exec) evalCall(env *specEnv, n *ast.CallExpr, hint types.Type, cl *Clau
 			}
 		}
 		x.specFail(cl, "len of %s", exprStr(n.Args[0]))
+	case "elemkind":
+		// elemkind(g): the reflect.Kind of V for an argument whose static type is *Generator[V] with V a basic type
+		// (read off the instantiated type at the call site: a fact of Go's type checker, not of the solver)
+		need(1)
+		gv, isT := x.eval(env, n.Args[0], nil, cl).(Term)
+		if id, isId := n.Args[0].(*ast.Ident); isId && env.statics != nil && env.statics[id.Name] != nil {
+			gv.Typ = env.statics[id.Name]
+		}
+		if !isT || gv.Typ == nil {
+			x.specFail(cl, "elemkind: %s has no static type", exprStr(n.Args[0]))
+		}
+		pt, ok := types.Unalias(gv.Typ).(*types.Pointer)
+		if !ok {
+			x.specFail(cl, "elemkind: %s is not a pointer to a generator", exprStr(n.Args[0]))
+		}
+		nt, ok := types.Unalias(pt.Elem()).(*types.Named)
+		if !ok || nt.TypeArgs() == nil || nt.TypeArgs().Len() != 1 {
+			x.specFail(cl, "elemkind: %s is not an instantiated Generator[V]", exprStr(n.Args[0]))
+		}
+		bt, ok := types.Unalias(nt.TypeArgs().At(0)).(*types.Basic)
+		if !ok {
+			return Term{S: bvConst(0, 64), Sort: sBV(64), Typ: types.Typ[types.Uint]} // reflect.Invalid: not a basic type
+		}
+		kinds := map[types.BasicKind]uint64{types.Bool: 1, types.Int: 2, types.Int8: 3, types.Int16: 4, types.Int32: 5, types.Int64: 6,
+			types.Uint: 7, types.Uint8: 8, types.Uint16: 9, types.Uint32: 10, types.Uint64: 11, types.Uintptr: 12,
+			types.Float32: 13, types.Float64: 14, types.String: 24}
+		return Term{S: bvConst(kinds[bt.Kind()], 64), Sort: sBV(64), Typ: types.Typ[types.Uint]}
 	case "deref", "hasType":
 		// deref(x, T): the *T held in interface value x; hasType(x, T): x holds a *T
 		need(2)
